@@ -138,7 +138,9 @@ func TestAtomicity(t *testing.T) {
 		lens = []int{1, 5, 64, 700, 4096, 20000}
 	}
 	for _, enc := range []bool{false, true} {
-		for _, prev := range []bool{false, true} {
+		// previous value: none, longer, of exactly the new value's length (an overwrite in place would be possible), shorter
+		for _, prevLen := range []int{-1, 3, 0, -2} {
+			prev := prevLen != -1
 			for _, n := range lens {
 				total := n
 				if enc {
@@ -172,10 +174,14 @@ func TestAtomicity(t *testing.T) {
 						if err != nil {
 							t.Fatal(err)
 						}
-						if err := c.Set(key, valueN('P', n+3)); err != nil {
+						pl := n + prevLen
+						if prevLen == -2 {
+							pl = max(n-2, 0)
+						}
+						if err := c.Set(key, valueN('P', pl)); err != nil {
 							t.Fatal(err)
 						}
-						allowed["previous"] = valueN('P', n+3)
+						allowed["previous"] = valueN('P', pl)
 					}
 					cmd := child("VERIF_CHILD=cut", "VERIF_DIR="+dir, "VERIF_ENC="+map[bool]string{true: "1", false: "0"}[enc],
 						"VERIF_KEY="+key, "VERIF_LEN="+strconv.Itoa(n), "VERIF_LIMIT="+strconv.Itoa(k))
@@ -210,7 +216,7 @@ func TestAtomicity(t *testing.T) {
 							}
 						}
 					}
-					add("CUT enc=%v prev=%v len=%d limit=%d set_ok=%v get=%s %s", enc, prev, n, k, setOK, got, verdict)
+					add("CUT enc=%v prev=%v prevlen=%+d len=%d limit=%d set_ok=%v get=%s %s", enc, prev, prevLen, n, k, setOK, got, verdict)
 					os.RemoveAll(dir)
 				}
 			}
